@@ -76,9 +76,11 @@ TEXT = {
             "after every ordering, bounded copy sizes in sparse transpose/replicate; numerical equality with dense "
             "LDL' is not decided",
             "static analysis: index-space qualifier inference + must-pass-through"),
-    "C18": ("table agreement only: ellipsoid enumerators, captions, ids, name lookup and parameter switch agree; "
-            "round trips are numerical and are not decided",
-            "static analysis: table agreement over AST facts"),
+    "C18": ("table agreement (ellipsoid enumerators, captions, ids, name lookup and parameter switch agree) and the "
+            "literal-format clause: the languages accepted by the character-level recognisers IsFloat/IsInteger equal the "
+            "documented formats (automata read off the CFG, product construction); round trips are numerical and are not decided",
+            "static analysis: table agreement over AST facts; automaton extraction from the CFG of the recognisers and "
+            "language-equivalence check against the documented format"),
     "C19": ("structural clauses for gama-g3: every g3 visitor covers all observation types, typestate of g3::Model and "
             "Adj, algorithm tables, DataParser automaton, escaping in the g3 writers, new/delete pairing; adjusted "
             "coordinates are not decided",
